@@ -115,3 +115,9 @@ Theorem C04_run_table_consistent : forall ops r a,
   lookupN r (p_runs (fst (run ops))) = Some a -> ah_run (get_ah (fst (run ops)) a) = r.
 Proof. intros ops r a. exact (ti_run _ (tab_inv_reachable ops) r a). Qed.
 Print Assumptions C04_run_table_consistent.
+
+(* The executable decision replayed against the real daemon (AppKey.code_same, stage "appkey" of the check)
+   is equality of keys. *)
+Theorem C04_code_same_iff : forall i j, AppKey.code_same i j = true <-> AppKey.key (fun x => x) i = AppKey.key (fun x => x) j.
+Proof. exact AppKey.code_same_iff. Qed.
+Print Assumptions C04_code_same_iff.
